@@ -133,9 +133,9 @@ Fixpoint seqr (l : list (res (list piece))) : res (list piece) :=
 
 Definition implicit_nl (s : str) : bool :=
   match s with
-  | 42 %N :: _ | 35 %N :: _ | 58 %N :: _ | 59 %N :: _ => true      (* * # : ; *)
-  | 123 %N :: 124 %N :: _ => true                                  (* {| *)
-  | _ => false
+  | c :: r => N.eqb c 42 || N.eqb c 35 || N.eqb c 58 || N.eqb c 59                         (* * # : ; *)
+              || (N.eqb c 123 && match r with d :: _ => N.eqb d 124 | [] => false end)     (* {| *)
+  | [] => false
   end.
 
 Definition next1 (rest : list piece) : piece := match rest with x :: _ => x | [] => PMark end.
@@ -367,6 +367,16 @@ Section Flatten.
                 end
     end.
 
+  (* `for x in node: flatten(x, ...)`: stops at the first exception *)
+  Fixpoint flat_list (fl : flat) (e : env) (l : list node) : res (list piece) :=
+    match l with
+    | [] => Ok []
+    | x :: r => match fl x e with
+                | Err er => Err er
+                | Ok ps => match flat_list fl e r with Ok qs => Ok (ps ++ qs) | Err er => Err er end
+                end
+    end.
+
   Definition open3 : str := [123;123;123]%N.
   Definition close3 : str := [125;125;125]%N.
 
@@ -374,7 +384,7 @@ Section Flatten.
     match n with
     | NStr s => Ok [PS s]
     | NEq => Ok [PS [61%N]]
-    | NSeq l => seqr (map (fun x => fl x e) l)
+    | NSeq l => flat_list fl e l
     | NVar l =>                                           (* nodes.pyx:170-188 *)
         match l with
         | [] => Ok []
